@@ -17,7 +17,7 @@ from vf import cel, common, gen, ir, localize, outcome, refcel, values
 RULE = (
     "type-directed programs (depth <= 4) over lists/maps (nested) of int/uint/bool/string, strings, the five macros (nested, capturing outer "
     "variables), indexes over all of int64, present/absent keys, map literals with possibly duplicate keys, matches() on a regex fragment "
-    "(+ invalid patterns), against vf.refcel; laws (x in l <=> exists, (s+t).startsWith(s), substrings contained, exists_one <=> count==1, "
+    "(+ invalid patterns), against vf.refcel; a second generator nests macros two or three deep with inner bodies that mention the outer iteration variables (outer collections of >= 2 distinct elements, shadowing inner variables), a third navigates JSON-like documents (dot / index / has / in / macros over members that are null, false, 0, '', [], {} or absent); laws (x in l <=> exists, (s+t).startsWith(s), substrings contained, exists_one <=> count==1, "
     "filter partition) on bound values. non-trivial = program has a macro or index/lookup/in/has/string function. distinct by source+bindings."
 )
 
@@ -187,6 +187,11 @@ def campaign(run: common.Run) -> None:
         check_program(run, node, env, run.hyp_fail)
 
     common.drive(run, body, {"p": gen.typed_program(4, ROOTS, None, EXCLUDE)}, 2500 if q else 30000, seed_salt=1)
+
+    # macros nested two or three deep whose inner bodies capture the outer iteration variables
+    common.drive(run, body, {"p": gen.nested_macro_program()}, 600 if q else 8000, seed_salt=2)
+    # navigation of JSON-like documents along paths drawn from the document (members that are null / false / 0 / '' / [] / {}), and near misses
+    common.drive(run, body, {"p": gen.document_program()}, 600 if q else 8000, seed_salt=3)
 
     for i, (name, src, kinds) in enumerate(LAWS):
         def law_body(payloads, name=name, src=src, kinds=kinds):
